@@ -53,7 +53,7 @@ func (c *Ctx) replay() *replayModel {
 	seen := map[*ssa.Function]bool{m.Switch: true}
 	var work []*ssa.Function
 	for _, call := range callsIn(m.Switch) {
-		cal := call.Common().StaticCallee()
+		cal := calleeOf(call.Common())
 		if cal == nil || !inUnit[cal] || seen[cal] {
 			continue
 		}
@@ -73,7 +73,7 @@ func (c *Ctx) replay() *replayModel {
 			}
 		}
 		for _, call := range callsIn(g) {
-			cal := call.Common().StaticCallee()
+			cal := calleeOf(call.Common())
 			if cal != nil && inUnit[cal] && !seen[cal] {
 				seen[cal] = true
 				work = append(work, cal)
